@@ -152,3 +152,19 @@ def pany(patterns: Iterable[str], node: ast.AST, env: Optional[Dict[str, str]] =
 def psub(template: str, b: Dict[str, str]) -> str:
     """instantiate ``$x`` / ``$$x`` in a text template with bindings (for comparing normalised texts)"""
     return _MV.sub(lambda m: b.get(m.group(1), m.group(0)), template)
+
+
+def pall(patterns: Iterable[str], root: ast.AST, env: Optional[Dict[str, str]] = None, into_nested: bool = True) -> Optional[Dict[str, str]]:
+    """bindings under which EVERY pattern occurs somewhere below ``root`` (shared metavariables agree); None if there are none.
+    Backtracking over the occurrences, so the order in which the patterns are listed does not matter."""
+    pats = list(patterns)
+
+    def go(i, b):
+        if i == len(pats):
+            return b
+        for _, m in pfind(pats[i], root, b, into_nested):
+            r = go(i + 1, m)
+            if r is not None:
+                return r
+        return None
+    return go(0, dict(env or {}))
